@@ -84,13 +84,16 @@ Definition build_ops (r : req) (ops : list top) (b : bld) : bld :=
 
 (* message.Builder.ScrubResponses for a set of requests: returns the bytes freed *)
 Definition mem_req (r : req) (rs : list req) : bool := existsb (N.eqb r) rs.
-Definition scrub_bld (rs : list req) (b : bld) : bld * N :=
+Definition scrub_kept (rs : list req) (b : bld) : list (link * N) :=
   let resp' := filter (fun x => negb (mem_req (fst x) rs)) (b_resp b) in
   (* blocks kept: those some remaining response lists as present and that are in outgoingBlocks *)
   let wanted := flat_map (fun x => map fst (filter snd (snd x))) resp' in
-  let kept := filter (fun x => existsb (N.eqb (fst x)) wanted) (b_blocks b) in
+  filter (fun x => existsb (N.eqb (fst x)) wanted) (b_blocks b).
+Definition scrub_bld (rs : list req) (b : bld) : bld * N :=
+  let kept := scrub_kept rs b in
   let newsize := fold_right (fun x acc => snd x + acc) 0 kept in
-  ({| b_topic := b_topic b; b_blocks := kept; b_blk := newsize; b_resp := resp';
+  ({| b_topic := b_topic b; b_blocks := kept; b_blk := newsize;
+      b_resp := filter (fun x => negb (mem_req (fst x) rs)) (b_resp b);
       b_status := filter (fun x => negb (mem_req (fst x) rs)) (b_status b);
       b_ext := filter (fun x => negb (mem_req (fst x) rs)) (b_ext b);
       b_subs := filter (fun x => negb (mem_req (fst x) rs)) (b_subs b) |},
@@ -210,6 +213,12 @@ Fixpoint run_loop (fuel : nat) (s : mq) (acc : qout) : mq * qout :=
 
 Definition loop_fuel (s : mq) : nat := S (S (length (builders s))).
 
+(* the last builder of the queue, and updating it in place *)
+Fixpoint last_opt (bs : list bld) : option bld :=
+  match bs with [] => None | [b] => Some b | _ :: r => last_opt r end.
+Fixpoint upd_last (f : bld -> bld) (bs : list bld) : list bld :=
+  match bs with [] => [] | [b] => [f b] | b :: r => b :: upd_last f r end.
+
 (* shouldBeginNewResponse + buildMessage + the reservation *)
 Definition do_build (s : mq) (r : req) (ops : list top) : mq * qout :=
   (* bookkeeping of the link tracker: a missing block makes the final status "partial" *)
@@ -221,20 +230,21 @@ Definition do_build (s : mq) (r : req) (ops : list top) : mq * qout :=
   else if done s then (s0, out_nil)       (* buildMessage refuses once done is closed; the reservation is returned *)
   else
     let size := ops_size ops in
-    let need_new := match rev (builders s) with
-                    | [] => true
-                    | last :: _ => if size =? 0 then false else max_block_size <? b_blk last + size
+    let need_new := match last_opt (builders s) with
+                    | None => true
+                    | Some last => if size =? 0 then false else max_block_size <? b_blk last + size
                     end in
     let '(bs, nt) := if need_new then (builders s ++ [bld_new (next_topic s)], next_topic s + 1)
                      else (builders s, next_topic s) in
-    let last := match rev bs with l :: _ => l | [] => bld_new 0 end in
-    let init := removelast bs in
-    let last' := build_ops r ops last in
-    let added := b_blk last' - b_blk last in
+    let bs' := upd_last (build_ops r ops) bs in
+    let added := match last_opt bs', last_opt bs with
+                 | Some l', Some l => b_blk l' - b_blk l
+                 | _, _ => 0
+                 end in
     (* the part of the reservation that did not become queued block bytes is returned at once *)
     let al := alloc s + size - (size - added) in
-    let wk := if bld_empty last' then work s else true in
-    ({| builders := init ++ [last']; next_topic := nt; alloc := al; has_sender := has_sender s; work := wk;
+    let wk := match last_opt bs' with Some l' => if bld_empty l' then work s else true | None => work s end in
+    ({| builders := bs'; next_topic := nt; alloc := al; has_sender := has_sender s; work := wk;
         done := done s; ph := ph s; closed := closed s; miss := miss' |}, out_nil).
 
 Definition qstep (s : mq) (l : qlabel) : mq * qout :=
